@@ -1,14 +1,281 @@
 /-
-  Driver.C12 — line protocol front end for property C12 (stub: not built yet).
+  Driver.C12 — line protocol for property C12 (matrix views and partitions).
+
+  The answer before `##` is what C12 speaks about and is computed from the *specification*
+  (EasyMl/Spec/MatrixView.lean: `MExpr.size`, `MExpr.cell`, `partitionSpec`); the code-shaped
+  model (EasyMl/Model/MatrixView.lean) must give the same answer (theorems in Props/C12) — a
+  disagreement is reported as MODEL-SPEC-DISAGREE (a machinery error).
+
+    @ matrix <rows> <cols>                  leaf matrix with ids = flat offsets  → ok size=RxC
+    mrange <rs>:<rl> <cs>:<cl>              MatrixRange::from(current, …)       → ok size=RxC
+    mreverse <0|1> <0|1>                    MatrixReverse::from                 → ok size=RxC
+    mmap                                    MatrixMap::from                     → ok size=RxC
+    roundtrip                               MatrixRefTensor(TensorRefMatrix::from(current)?)
+                                                                                → ok size=RxC | err <shape>
+    mget <r> <c>                            checked getters                     → some(<id>) | none
+    uget <r> <c>                            unchecked getters (in range only)   → <id>
+    scan                                    iterate the view in row-major order → RxC:<ids>
+    set <r> <c>                             write through the view, scan the leaf → changed=<offsets> | none
+    @ partition <rows> <cols> <rp> <cp>     Matrix::partition / partition_quadrants
+                                                                                → ok sizes=RxC;… | panic(<kind>)
+    partget <k> <r> <c>                     checked getter of part k            → some(<id>) | none
+    partscan                                row-major iteration of every part   → RxC:<ids>;…
+    partset <k> <r> <c>                     write through part k, scan the matrix → changed=<offsets> | none
+
+  Views whose source is changed after construction (`source_ref_mut`, `source_ref`, `source`):
+    @ live <rows> <cols> <fr>:<fc>,…        MatrixReverse(s) (innermost first) over a matrix holding
+                                            1..rows·cols, source kind given by src=owned|mut|boxed
+                                                                                → ok size=RxC
+    src <C11 operation …>                   `view.source_ref_mut()…` down to the matrix, then the
+                                            operation (insert_row, remove_column, retain_mut, set, …)
+                                                                                → ok size=RxC | panic(<kind>) size=RxC
+    wrap <fr> <fc> | unwrap                 one more MatrixReverse::from / `source(self)`   → ok size=RxC
+    lget <r> <c> | luget <r> <c> | lscan    as mget / uget / scan, answering *elements*
+    lset <r> <c>                            write through the view, scan the matrix → changed=<offsets> | none
+    srcget <k> <r> <c>                      `source_ref()` k times, then the checked getter → some(<element>) | none
 -/
+import EasyMl.Spec.MatrixView
 import Driver.Parse
+import Driver.C11
 
 namespace Driver.C12
+open EasyMl EasyMl.Fallible EasyMl.MatrixView Driver
 
-abbrev State := Unit
+structure State where
+  expr : Option MExpr := none
+  view : Option MViewU := none
+  parts : List MatrixPart := []       -- model
+  specParts : List MatrixPart := []   -- specification
+  live : Option (Live Nat) := none
 
-def init : State := ()
+def init : State := {}
 
-def step (s : State) (_toks : List String) : State × String := (s, "unimplemented")
+def A : Arith := Arith.fixed
+
+def both (spec model : String) : String :=
+  if spec = model then spec else s!"{spec} ## MODEL-SPEC-DISAGREE {model}"
+
+def parseRange (s : String) : Option IndexRange :=
+  match s.splitOn ":" with
+  | [a, b] =>
+    match a.toNat?, b.toNat? with
+    | some x, some y => some ⟨x, y⟩
+    | _, _ => none
+  | _ => none
+
+def showIds (l : List Nat) : String := if l.isEmpty then "-" else ",".intercalate (l.map toString)
+
+/-- install a new composition: evaluate it with the model, answer with the spec's size -/
+def install (s : State) (e : MExpr) : State × String :=
+  match e.eval A with
+  | .panic k => (s, s!"panic({k})")
+  | .ok (.error shape) =>
+    -- the wrapper refused an empty view; the current view stays
+    let specAns := if e.Buildable then "MODEL-SPEC-DISAGREE buildable" else
+      s!"err {showShape (shape.map fun (b, l) => (if b then "row" else "column", l))}"
+    (s, specAns)
+  | .ok (.ok v) =>
+    let specAns := s!"ok size={e.size.1}x{e.size.2}"
+    let modelAns := s!"ok size={v.view.rows}x{v.view.columns}"
+    let ok := if e.Buildable then both specAns modelAns else "MODEL-SPEC-DISAGREE not-buildable"
+    ({ s with expr := some e, view := some v }, ok)
+
+def scanSpec (e : MExpr) : List Nat :=
+  (List.range e.size.1).flatMap fun i => (List.range e.size.2).filterMap fun j => e.cell i j
+
+def scanModel (v : MViewU) : List (Outcome (Option Nat)) :=
+  (List.range v.view.rows).flatMap fun i => (List.range v.view.columns).map fun j => v.view.get i j
+
+def showScanModel (v : MViewU) : String :=
+  let cells := scanModel v
+  if cells.all (fun | .ok (some _) => true | _ => false) then
+    s!"{v.view.rows}x{v.view.columns}:" ++
+      showIds (cells.filterMap fun | .ok (some i) => some i | _ => none)
+  else "MODEL-HOLE"
+
+def partScan (p : MatrixPart) : String := s!"{p.rows}x{p.columns}:{showIds p.cells}"
+
+
+/-- element stored at an offset of the current data -/
+def elemAt (l : Live Nat) (o : Option Nat) : Option Nat := o.bind (l.leaf.data[·]?)
+
+def liveSpec (l : Live Nat) : MExpr := reversalsOver l.leaf.rows l.leaf.columns l.flags
+
+def liveSize (l : Live Nat) : String :=
+  both s!"size={(liveSpec l).size.1}x{(liveSpec l).size.2}"
+       s!"size={(l.view A).view.rows}x{(l.view A).view.columns}"
+
+def parseFlags (s : String) : Option (List (Bool × Bool)) :=
+  (splitComma s).mapM fun part =>
+    match part.splitOn ":" with
+    | [a, b] => some (a = "1", b = "1")
+    | _ => none
+
+def liveStep (s : State) (l : Live Nat) (toks : List String) : State × String :=
+  match toks with
+  | "src" :: rest =>
+    match Driver.C11.parseOp rest with
+    | none => (s, "bad-op")
+    | some op =>
+      let (l', p) := l.mutate op
+      ({ s with live := some l' },
+        (match p with | none => "ok " | some k => s!"panic({k}) ") ++ liveSize l')
+  | "wrap" :: a :: b :: _ =>
+    let l' := Live.reverse l (a = "1") (b = "1")
+    ({ s with live := some l' }, "ok " ++ liveSize l')
+  | "unwrap" :: _ =>
+    match l.unwrap with
+    | some l' => ({ s with live := some l' }, "ok " ++ liveSize l')
+    | none => (s, "bad-op")
+  | "lget" :: rS :: cS :: _ =>
+    match rS.toNat?, cS.toNat? with
+    | some r, some c =>
+      (s, both (showOpt (elemAt l ((liveSpec l).cell r c)))
+               (showOutcome (fun o => showOpt (elemAt l o)) ((l.view A).view.get r c)))
+    | _, _ => (s, "bad-op")
+  | "luget" :: rS :: cS :: _ =>
+    match rS.toNat?, cS.toNat? with
+    | some r, some c =>
+      (s, both (match elemAt l ((liveSpec l).cell r c) with
+                | some x => toString x | none => "out-of-contract")
+               (match (l.view A).uget r c with
+                | .ok o => (match elemAt l (some o) with | some x => toString x | none => "hole")
+                | .panic k => s!"panic({k})"))
+    | _, _ => (s, "bad-op")
+  | "lscan" :: _ =>
+    let e := liveSpec l
+    let v := l.view A
+    let specCells := (List.range e.size.1).flatMap fun i =>
+      (List.range e.size.2).filterMap fun j => elemAt l (e.cell i j)
+    let modelCells := (List.range v.view.rows).flatMap fun i =>
+      (List.range v.view.columns).filterMap fun j =>
+        match v.view.get i j with
+        | .ok o => elemAt l o
+        | .panic _ => none
+    (s, both s!"{e.size.1}x{e.size.2}:{showIds specCells}"
+             s!"{v.view.rows}x{v.view.columns}:{showIds modelCells}")
+  | "lset" :: rS :: cS :: _ =>
+    match rS.toNat?, cS.toNat? with
+    | some r, some c =>
+      (s, both (match (liveSpec l).cell r c with | some i => s!"changed={i}" | none => "none")
+               (match (l.view A).view.get r c with
+                | .ok (some i) => s!"changed={i}"
+                | .ok none => "none"
+                | .panic k => s!"panic({k})"))
+    | _, _ => (s, "bad-op")
+  | "srcget" :: kS :: rS :: cS :: _ =>
+    match kS.toNat?, rS.toNat?, cS.toNat? with
+    | some k, some r, some c =>
+      match l.sourceRef k with
+      | none => (s, "bad-op")
+      | some inner =>
+        (s, both (showOpt (elemAt inner ((liveSpec inner).cell r c)))
+                 (showOutcome (fun o => showOpt (elemAt inner o)) ((inner.view A).view.get r c)))
+    | _, _, _ => (s, "bad-op")
+  | _ => (s, "bad-op")
+
+def step (s : State) (toks : List String) : State × String :=
+  match toks with
+  | "@" :: "live" :: rS :: cS :: flagsS :: _ =>
+    match rS.toNat?, cS.toNat?, parseFlags flagsS with
+    | some r, some c, some flags =>
+      let m : Matrix Nat := ⟨(List.range (r * c)).map (· + 1), r, c⟩
+      let l := flags.foldl (fun (l : Live Nat) f => Live.reverse l f.1 f.2) (Live.matrix m)
+      ({ live := some l }, "ok " ++ liveSize l)
+    | _, _, _ => ({}, "bad-op")
+  | "@" :: "matrix" :: rS :: cS :: _ =>
+    match rS.toNat?, cS.toNat? with
+    | some r, some c => install {} (.leaf r c)
+    | _, _ => ({}, "bad-op")
+  | "@" :: "partition" :: rS :: cS :: rpS :: cpS :: _ =>
+    match rS.toNat?, cS.toNat?, parseNatList rpS, parseNatList cpS with
+    | some r, some c, some rp, some cp =>
+      let m : MatrixMeta := ⟨r * c, r, c⟩
+      let showParts := fun (ps : List MatrixPart) =>
+        "ok sizes=" ++ ";".intercalate (ps.map fun p => s!"{p.rows}x{p.columns}")
+      let specO := partitionSpec m rp cp
+      let modelO := partition m rp cp
+      let st : State :=
+        match specO, modelO with
+        | .ok sp, .ok mp => { parts := mp, specParts := sp }
+        | _, _ => {}
+      (st, both (showOutcome showParts specO) (showOutcome showParts modelO))
+    | _, _, _, _ => ({}, "bad-op")
+  | "mrange" :: rS :: cS :: _ =>
+    match s.expr, parseRange rS, parseRange cS with
+    | some e, some r, some c => install s (.range e r c)
+    | none, _, _ => (s, "no-view")
+    | _, _, _ => (s, "bad-op")
+  | "mreverse" :: rS :: cS :: _ =>
+    match s.expr with
+    | some e => install s (.reverse e (rS = "1") (cS = "1"))
+    | none => (s, "no-view")
+  | "mmap" :: _ =>
+    match s.expr with
+    | some e => install s (.map e)
+    | none => (s, "no-view")
+  | "roundtrip" :: _ =>
+    match s.expr with
+    | some e => install s (.viaTensor e)
+    | none => (s, "no-view")
+  | "mget" :: rS :: cS :: _ =>
+    match s.expr, s.view, rS.toNat?, cS.toNat? with
+    | some e, some v, some r, some c =>
+      (s, both (showOpt (e.cell r c)) (showOutcome showOpt (v.view.get r c)))
+    | none, _, _, _ => (s, "no-view")
+    | _, _, _, _ => (s, "bad-op")
+  | "uget" :: rS :: cS :: _ =>
+    match s.expr, s.view, rS.toNat?, cS.toNat? with
+    | some e, some v, some r, some c =>
+      (s, both (match e.cell r c with | some i => toString i | none => "out-of-contract")
+               (showOutcome toString (v.uget r c)))
+    | none, _, _, _ => (s, "no-view")
+    | _, _, _, _ => (s, "bad-op")
+  | "scan" :: _ =>
+    match s.expr, s.view with
+    | some e, some v =>
+      (s, both s!"{e.size.1}x{e.size.2}:{showIds (scanSpec e)}" (showScanModel v))
+    | _, _ => (s, "no-view")
+  | "set" :: rS :: cS :: _ =>
+    -- a write through the view changes exactly the designated cell of the leaf
+    match s.expr, s.view, rS.toNat?, cS.toNat? with
+    | some e, some v, some r, some c =>
+      (s, both (match e.cell r c with | some i => s!"changed={i}" | none => "none")
+               (match v.view.get r c with
+                | .ok (some i) => s!"changed={i}"
+                | .ok none => "none"
+                | .panic k => s!"panic({k})"))
+    | none, _, _, _ => (s, "no-view")
+    | _, _, _, _ => (s, "bad-op")
+  | "partget" :: kS :: rS :: cS :: _ =>
+    match kS.toNat?, rS.toNat?, cS.toNat? with
+    | some k, some r, some c =>
+      match s.specParts[k]?, s.parts[k]? with
+      | some sp, some mp =>
+        (s, both (showOutcome showOpt (sp.get r c)) (showOutcome showOpt (mp.get r c)))
+      | _, _ => (s, "no-part")
+    | _, _, _ => (s, "bad-op")
+  | "partscan" :: _ =>
+    (s, both (";".intercalate (s.specParts.map partScan)) (";".intercalate (s.parts.map partScan)))
+  | "partset" :: kS :: rS :: cS :: _ =>
+    match kS.toNat?, rS.toNat?, cS.toNat? with
+    | some k, some r, some c =>
+      match s.specParts[k]?, s.parts[k]? with
+      | some sp, some mp =>
+        let ans := fun (p : MatrixPart) =>
+          match p.get r c with
+          | .ok (some i) => s!"changed={i}"
+          | .ok none => "none"
+          | .panic k => s!"panic({k})"
+        (s, both (ans sp) (ans mp))
+      | _, _ => (s, "no-part")
+    | _, _, _ => (s, "bad-op")
+  | op :: _ =>
+    if ["src", "wrap", "unwrap", "lget", "luget", "lscan", "lset", "srcget"].contains op then
+      match s.live with
+      | some l => liveStep s l toks
+      | none => (s, "no-view")
+    else (s, "bad-op")
+  | _ => (s, "bad-op")
 
 end Driver.C12
